@@ -191,8 +191,8 @@ func c02Levels(p *Prog, r *Report) {
 		ok := len(sites) > 0
 		for _, s := range sites {
 			last := s.Call.Args[len(s.Call.Args)-1]
-			o := objOf(info, last)
-			if o == nil || !strings.HasSuffix(o.Type().String(), "model.FileFilter") {
+			// a filter variable, or a call of the helper that builds the filter (the table above is then read from that call)
+			if tv, has := info.Types[last]; !has || tv.Type == nil || !strings.HasSuffix(tv.Type.String(), "model.FileFilter") {
 				ok = false
 			}
 		}
